@@ -46,3 +46,22 @@ def read_from(stream) -> int:
         return res
     else:
         return i
+
+
+def read_bytes(stream, n: int) -> bytes:
+    """
+    Reads n bytes from the stream piece by piece, so a length that is larger than
+    the stream never makes the stream allocate a buffer of that length.
+    Like stream.read(n) it returns less than n bytes at the end of the stream.
+    """
+    chunk = 4096
+    if n <= chunk:
+        return stream.read(n)
+    res = []
+    while n > 0:
+        b = stream.read(min(n, chunk))
+        if len(b) == 0:
+            break
+        res.append(b)
+        n -= len(b)
+    return b"".join(res)
